@@ -292,7 +292,6 @@ func appendedFromMsg(v ssa.Value, rooted func(ssa.Value) bool) bool {
 	return n == 1 && good
 }
 
-
 // c05Split: the NAL lists produced by avc.SplitNaluAnnexb / SplitNaluAvcc are looked at only when
 // the split reported no error. IterateNaluAnnexb hands its whole (possibly empty) input to the
 // handler when it finds no start code and then returns an error; the users index nal[0].
